@@ -94,7 +94,7 @@ Theorem C06_absorb_replace :
 Proof. exact absorb_replace. Qed.
 Print Assumptions C06_absorb_replace.
 
-(* C06_keys_disjoint (was _partial/_refuted, finding merge-key-in-data-and-binaryData, until the repair of
+(* C06_keys_disjoint (was _partial/_refuted, finding merge-key-in-data-and-binaryData, until the repair 0a87769 of
    MergeDataMapFrom / MergeBinaryDataMapFrom): one dictionary per object — in every build output of every tree no
    object has a key both in data and in binaryData.  Regression example: keys_disjoint_regression. *)
 Theorem C06_keys_disjoint :
@@ -136,7 +136,7 @@ Print Assumptions C06_name_is_hash_chain.
 
 (* The law "every acceptable content has a name" still fails for ONE spelling (finding
    hash-yaml-roundtrip-merge-key): the hash is defined exactly when no key is << (partial; the leading-TAB shape was
-   repaired, regression examples hash_leading_tab_regression / leading_tab_regression) ... *)
+   repaired by baa93c5, regression examples hash_leading_tab_regression / leading_tab_regression) ... *)
 Theorem C06_hash_total_partial :
   forall c, content_rt_fails c = false -> exists s, hash_content c = Ok s.
 Proof. exact hash_content_total. Qed.
@@ -177,16 +177,30 @@ Theorem C06_suffix_shape :
 Proof. exact hash_content_shape. Qed.
 Print Assumptions C06_suffix_shape.
 
-(* C06_encode_injective (was _partial/_refuted, finding hash-ignores-null-named-keys, until data keys were tagged
-   as strings): on UTF-8 contents equal encodings mean equal contents; so two different contents get the same name
-   only if the 40-bit truncated SHA-256 collides (no claim is made about that).
-   Regression examples: encode_null_key_regression, null_key_regression. *)
-Theorem C06_encode_injective :
+(* C06_encode_injective (partial): on UTF-8 contents none of whose keys is spelled ~ / null / Null / NULL, equal
+   encodings mean equal contents; so two different contents get the same name only if the 40-bit truncated
+   SHA-256 collides (no claim is made about that).  Full statement: the same without [content_no_null]. *)
+Theorem C06_encode_injective_partial :
   forall c c',
     content_utf8 c = true -> content_utf8 c' = true -> content_norm c -> content_norm c' ->
+    content_no_null c = true -> content_no_null c' = true ->
     encode_content c = encode_content c' -> c = c'.
 Proof. exact encode_content_inj. Qed.
-Print Assumptions C06_encode_injective.
+Print Assumptions C06_encode_injective_partial.
+
+(* ... refuted in full (finding hash-ignores-null-named-keys; the repair was declined: tagging the keys !!str changes the
+   emitted spelling of keys such as 1 / true): entries under a null-spelled key are not hashed *)
+Theorem C06_encode_injective_refuted :
+  exists c c', content_utf8 c = true /\ content_utf8 c' = true /\ content_norm c /\ content_norm c' /\
+               c <> c' /\ encode_content c = encode_content c'.
+Proof. exact encode_content_inj_refuted. Qed.
+Print Assumptions C06_encode_injective_refuted.
+
+Theorem C06_fresh_name_refuted :
+  exists o o', build (null_tree "a") = Ok [o] /\ build (null_tree "b") = Ok [o'] /\
+               g_data o <> g_data o' /\ g_name o = g_name o'.
+Proof. exact fresh_name_refuted. Qed.
+Print Assumptions C06_fresh_name_refuted.
 
 (* JSON string literals written by encoding/json can be read back from the front of any text *)
 Theorem C06_json_string_injective :
